@@ -143,10 +143,18 @@ def j_stage(rep, tier, cases, cat_by_variant, d):
         futs = [ex.submit(run_trace_tlc, p) for p in files + ex_files + [bad_path]]
         results = [f.result() for f in futs]
     st_meta, st_bad, _ = results[-1]
-    ok = st_meta and st_meta["done"] and [b["line"] for b in st_bad] == [victim + 1]
-    rep.notes["selftest_J_corrupted_event_reported_at_line"] = [b["line"] for b in st_bad]
-    if not ok:
-        raise nv.ToolError("binding self-test failed: corrupted trace event at line %d, Trace_VM reported %s" % (victim + 1, st_bad[:2]))
+    # (lines of the uncorrupted prefix that are rejected anyway: real drift, reported below)
+    base_bad = [b["line"] for b in results[0][1] if b["line"] <= cut]
+    st_lines = [b["line"] for b in st_bad]
+    hdr_of_victim = max(i for i, x in enumerate(lines[:victim]) if '"t":"H"' in x) + 1
+    if any(hdr_of_victim <= b <= victim + 1 for b in base_bad):
+        rep.notes["selftest_J"] = "inconclusive: the program holding the corrupted event is rejected without the corruption"
+    else:
+        ok = st_meta and st_meta["done"] and sorted(st_lines) == sorted(base_bad + [victim + 1])
+        rep.notes["selftest_J_corrupted_event_reported_at_line"] = [x for x in st_lines if x not in base_bad]
+        if not ok:
+            raise nv.ToolError("binding self-test failed: corrupted trace event at line %d, Trace_VM reported %s (uncorrupted: %s)" % (
+                victim + 1, st_lines[:5], base_bad[:5]))
 
     by_id = {s["id"]: s for s in summ}
     ops_validated = 0
@@ -248,7 +256,13 @@ def run(tier, seed):
     # ---- G
     inp, out = os.path.join(d, "cases.ndjson"), os.path.join(d, "out.ndjson")
     nv.write_ndjson(inp, [{"id": i, "stmts": c["stmts"]} for i, c in enumerate(cases)])
-    nv.harness("nv-eval", ["eval-run", "--cases", inp, "--out", out])
+    p = nv.harness("nv-eval", ["eval-run", "--cases", inp, "--out", out], check=False)
+    if p.returncode != 0:
+        if p.stderr.strip().startswith("prelude:"):
+            # the standard library is itself a program of the language: it must compile and run
+            rep.violation({"kind": "prelude-does-not-run", "msg": p.stderr.strip()[:600]})
+            return rep.finish()
+        raise nv.ToolError("harness nv-eval failed (%d):\n%s" % (p.returncode, p.stderr[-4000:]))
     results = nv.read_ndjson_text(open(out).read())
     kinds = {}
     for c, r in zip(cases, results):
